@@ -28,9 +28,14 @@ def gen_case(chk, i):
     nhosts = rng.randint(1, nlooms)
     hostoff = [0 if (h == 0 and rng.random() < 0.5) else rng.randint(-400000, 400000) for h in range(nhosts)]
     looms = []
+    # host names: plain, or (one case in three) a family in which one name is a prefix
+    # of the next (node1, node10, node100), the shortest being the reference node
+    hostnames = ["h%d" % h for h in range(nhosts)]
+    if rng.random() < 0.35:
+        hostnames = rng.choice([["node1", "node10", "node100", "node1-b"], ["n", "n0", "n00", "n0a"], ["ab", "abc", "abcd", "a"]])[:nhosts]
     for l in range(nlooms):
         h = l % nhosts
-        looms.append({"name": "h%d.%s%d" % (h, rng.choice(["a", "node", "x.y"]), l), "host": "h%d" % h, "off": hostoff[h]})
+        looms.append({"name": "%s.%s%d" % (hostnames[h], rng.choice(["a", "node", "x.y"]), l), "host": hostnames[h], "off": hostoff[h]})
     # ranks on every process (looms then sort by minimum rank, not by name),
     # placed cyclically over the looms
     with_ranks = rng.random() < 0.4
